@@ -33,6 +33,9 @@ def resolve_faults(program):
             pos = int(k) % n
             if exc == "skip" and eligible and pos not in eligible:
                 pos = eligible[int(k) % len(eligible)]
+            after_sc = [i for i, h in enumerate(base.hooks) if h[0] == "after_scenario"]
+            if exc == "skip_feature" and after_sc and pos not in after_sc:
+                pos = after_sc[int(k) % len(after_sc)]
             seen.setdefault(pos, exc)
         prog["hook_faults"] = sorted([k, e] for k, e in seen.items())
     if raw_c:
